@@ -488,12 +488,16 @@ Section Proofs.
   Proof.
     intros P values limit. unfold ListObjects.pipeline_recv.
     assert (Hsub : forall o, In o (cut limit (distinct_objs (map (fun v => (v, NoFurtherEval)) values))) -> In o values).
-    { intros o Hin. apply cut_In in Hin. apply distinct_objs_iff in Hin. rewrite map_fst_nofurther in Hin. exact Hin. }
+    { intros o Hin. apply cut_In in Hin.
+      apply (proj1 (distinct_objs_iff (map (fun v => (v, NoFurtherEval)) values) o)) in Hin.
+      rewrite map_map in Hin. simpl in Hin. rewrite map_id in Hin. exact Hin. }
     split; [|split; [|split; [|split]]].
     - apply cut_NoDup. apply distinct_objs_NoDup.
     - exact Hsub.
     - intros HP o Hin. apply HP. apply Hsub. exact Hin.
-    - intros Hl o Hin. subst limit. simpl. apply distinct_objs_iff. rewrite map_fst_nofurther. exact Hin.
+    - intros Hl o Hin. subst limit. simpl.
+      apply (proj2 (distinct_objs_iff (map (fun v => (v, NoFurtherEval)) values) o)).
+      rewrite map_map. simpl. rewrite map_id. exact Hin.
     - apply cut_length.
   Qed.
 
